@@ -88,20 +88,12 @@ fn process_cpu_ms() -> u64 {
 /// of CPU in it (a watcher thread; CPU-based so that machine load does not move the instant much).
 /// Returns the result, the polls and the CPU time of ALL threads between the raising of the flag
 /// and the return of the call (this part runs alone, after the parallel parts).
-fn pool_promptness(n: Uint, algo: Algo, threads: usize, after_cpu_ms: u64) -> (Result<String, Panicked>, u64, u64) {
+fn pool_promptness(n: Uint, algo: Algo, threads: usize, after_cpu_ms: u64) -> (Result<String, Panicked>, u64, u64, bool) {
     use std::sync::atomic::AtomicBool;
-    let mut p = Preferences::default();
-    p.verbosity = Verbosity::Silent;
-    p.threads = Some(threads);
     let polls = Arc::new(AtomicU64::new(0));
     let flag = Arc::new(AtomicBool::new(false));
     let flag_cpu = Arc::new(AtomicU64::new(u64::MAX));
     let finished = Arc::new(AtomicBool::new(false));
-    let (pl, fl) = (polls.clone(), flag.clone());
-    p.should_abort = Some(Box::new(move || {
-        pl.fetch_add(1, Ordering::SeqCst);
-        fl.load(Ordering::SeqCst)
-    }));
     let start = process_cpu_ms();
     let watcher = {
         let (flag, flag_cpu, finished) = (flag.clone(), flag_cpu.clone(), finished.clone());
@@ -117,16 +109,51 @@ fn pool_promptness(n: Uint, algo: Algo, threads: usize, after_cpu_ms: u64) -> (R
             }
         })
     };
-    let r = guarded(|| match yamaquasi::factor(n, algo, &p) {
-        Ok(v) => format!("Ok[{}]", v.iter().map(|x| x.to_string()).collect::<Vec<_>>().join("*")),
-        Err(_) => "Err".to_string(),
-    });
+    // the call runs on its own thread (Preferences is built there: it is not Send) so that a
+    // call that keeps working long after the signal can be given up on
+    let (tx, rx) = std::sync::mpsc::channel();
+    {
+        let (pl, fl) = (polls.clone(), flag.clone());
+        std::thread::Builder::new()
+            .stack_size(64 << 20)
+            .spawn(move || {
+                let mut p = Preferences::default();
+                p.verbosity = Verbosity::Silent;
+                p.threads = Some(threads);
+                p.should_abort = Some(Box::new(move || {
+                    pl.fetch_add(1, Ordering::SeqCst);
+                    fl.load(Ordering::SeqCst)
+                }));
+                let r = guarded(|| match yamaquasi::factor(n, algo, &p) {
+                    Ok(v) => format!("Ok[{}]", v.iter().map(|x| x.to_string()).collect::<Vec<_>>().join("*")),
+                    Err(_) => "Err".to_string(),
+                });
+                let _ = tx.send(r);
+            })
+            .expect("spawn");
+    }
+    // give up once the process has burnt GIVE_UP_MS of CPU after the signal
+    const GIVE_UP_MS: u64 = 40_000;
+    let mut gave_up = false;
+    let r = loop {
+        match rx.recv_timeout(std::time::Duration::from_millis(20)) {
+            Ok(r) => break r,
+            Err(std::sync::mpsc::RecvTimeoutError::Timeout) => {
+                let ft = flag_cpu.load(Ordering::SeqCst);
+                if ft != u64::MAX && process_cpu_ms().saturating_sub(ft) > GIVE_UP_MS {
+                    gave_up = true;
+                    break Ok("<no return>".to_string());
+                }
+            }
+            Err(_) => break Ok("<worker vanished>".to_string()),
+        }
+    };
     let end = process_cpu_ms();
     finished.store(true, Ordering::SeqCst);
     let _ = watcher.join();
     let ft = flag_cpu.load(Ordering::SeqCst);
     let after = if ft == u64::MAX { 0 } else { end.saturating_sub(ft) };
-    (r, polls.load(Ordering::SeqCst), after)
+    (r, polls.load(Ordering::SeqCst), after, gave_up)
 }
 
 #[derive(Clone)]
@@ -387,6 +414,56 @@ pub fn run(ctx: &Ctx) -> Report {
             ("cpu_ms_unaborted", J::from(b.cpu_total_ns / 1_000_000)),
         ]));
     }
+    // ---- abort already requested when the call starts (the "before the first stage" instant) on
+    // large inputs, where the first stages are expensive: every selector that accepts the size.
+    // The whole call may cost trial division, the primality test and the polls, nothing else.
+    {
+        let mut early = vec![];
+        let sizes: Vec<u32> = ctx.pick(vec![128u32, 200, 260, 300, 350], vec![128, 200, 260, 300, 350, 400, 450, 500]);
+        let mut cases: Vec<(u32, Uint, Algo)> = vec![];
+        for &b in &sizes {
+            let p = crate::refmodel::next_prime_w(&(crate::refmodel::W::ONE << (b / 2)));
+            let q = crate::refmodel::next_prime_w(&((crate::refmodel::W::ONE << (b - b / 2 - 1)) + (crate::refmodel::W::ONE << (b / 3))));
+            let n: Uint = crate::refmodel::w_to(&(p * q));
+            for a in [Algo::Auto, Algo::Pm1, Algo::Ecm, Algo::Qs, Algo::Mpqs, Algo::Siqs] {
+                if a == Algo::Qs && b > 400 {
+                    continue;
+                }
+                cases.push((b, n, a));
+            }
+        }
+        let obs: Vec<RunObs> = cases.par_iter().map(|(_, n, a)| run_subject(&Subject::Factor(*n, *a), Some(0))).collect();
+        for ((b, n, a), o) in cases.iter().zip(obs) {
+            rep.states += 1;
+            rep.evaluations += 1;
+            rep.transitions += o.polls;
+            let cpu_ms = o.cpu_total_ns / 1_000_000;
+            early.push(J::obj(vec![("bits", J::from(*b as u64)), ("algo", J::s(algo_name(*a))), ("cpu_ms", J::from(cpu_ms)), ("polls", J::from(o.polls))]));
+            match &o.result {
+                Err(p) => rep.violation(
+                    format!("algo={};early-abort;profile={};what=panic;site={}", algo_name(*a), ctx.profile, p.site),
+                    format!("factor({}-bit semiprime, {}) with the abort predicate true from the start: panic {}", b, algo_name(*a), p.short()),
+                    J::obj(vec![("n", J::s(*n)), ("algo", J::s(algo_name(*a))), ("abort_from_poll", J::from(0u64))]),
+                ),
+                Ok(r) => {
+                    if let Some(e) = &o.bad_result {
+                        rep.violation(
+                            format!("algo={};early-abort;what=bad-result", algo_name(*a)),
+                            format!("factor({}-bit semiprime, {}) with the abort predicate true from the start returned {}: {}", b, algo_name(*a), r, e),
+                            J::obj(vec![("n", J::s(*n)), ("algo", J::s(algo_name(*a))), ("abort_from_poll", J::from(0u64))]),
+                        );
+                    } else if cpu_ms > 1_000 {
+                        rep.violation(
+                            format!("algo={};early-abort;what=slow-abort", algo_name(*a)),
+                            format!("factor({}-bit semiprime n={}, {}) with the abort predicate true from the start returned {} after {:.1} s of CPU ({} polls): a method was started and run to its end although the interruption was already requested; bound 1 s", b, n, algo_name(*a), r, cpu_ms as f64 / 1000.0, o.polls),
+                            J::obj(vec![("n", J::s(*n)), ("algo", J::s(algo_name(*a))), ("abort_from_poll", J::from(0u64))]),
+                        );
+                    }
+                }
+            }
+        }
+        rep.set("aborted_from_the_start_runs", J::A(early));
+    }
     // ---- pooled runs (sequential section: nothing else consumes CPU in this process now):
     // inputs the method does not split, abort flag raised from outside, 2 and 4 threads. All threads
     // together may finish the work item they are in, not the rest of the batch.
@@ -397,13 +474,31 @@ pub fn run(ctx: &Ctx) -> Report {
         let p2 = crate::refmodel::next_prime_w(&((crate::refmodel::W::ONE << 100) - (crate::refmodel::W::ONE << 97)));
         let hard: Uint = crate::refmodel::w_to(&(p1 * p2));
         let n110 = u("649037107316859236188233584869853");
+        let harder: Uint = {
+            let p1 = crate::refmodel::next_prime_w(&(crate::refmodel::W::ONE << 124));
+            let p2 = crate::refmodel::next_prime_w(&((crate::refmodel::W::ONE << 125) - (crate::refmodel::W::ONE << 121)));
+            crate::refmodel::w_to(&(p1 * p2))
+        };
         let mut pooled = vec![];
-        for (n, a, th, k, name) in [(hard, Algo::Ecm, 2usize, 3000u64, "200-bit, Ecm"), (hard, Algo::Ecm, 4, 6000, "200-bit, Ecm"), (hard, Algo::Auto, 2, 3000, "200-bit, Auto")] {
-            let (r, polls, cpu_after) = pool_promptness(n, a, th, k);
+        let _ = n110;
+        for (n, a, th, k, name) in [
+            (hard, Algo::Ecm, 2usize, 3000u64, "200-bit, Ecm"),
+            (hard, Algo::Ecm, 4, 6000, "200-bit, Ecm"),
+            (hard, Algo::Auto, 2, 3000, "200-bit, Auto"),
+            (hard, Algo::Siqs, 2, 3000, "200-bit, Siqs"),
+            (hard, Algo::Mpqs, 2, 3000, "200-bit, Mpqs"),
+            // optimised builds finish the 200-bit input before the signal: a 250-bit one as well
+            (harder, Algo::Auto, 2, 4000, "250-bit, Auto"),
+            (harder, Algo::Siqs, 2, 4000, "250-bit, Siqs"),
+            (harder, Algo::Mpqs, 2, 4000, "250-bit, Mpqs"),
+            (harder, Algo::Mpqs, 4, 4000, "250-bit, Mpqs"),
+        ] {
+            let (r, polls, cpu_after, gave_up) = pool_promptness(n, a, th, k);
             rep.states += 1;
             rep.evaluations += 1;
             rep.transitions += polls;
             pooled.push(J::obj(vec![("subject", J::s(name)), ("threads", J::from(th)), ("abort_after_cpu_ms", J::from(k)), ("cpu_ms_all_threads_after_abort", J::from(cpu_after)), ("polls", J::from(polls))]));
+            let stop = gave_up;
             match r {
                 Err(p) => rep.violation(
                     format!("algo={};pool={};profile={};what=panic;site={}", algo_name(a), th, ctx.profile, p.site),
@@ -411,7 +506,7 @@ pub fn run(ctx: &Ctx) -> Report {
                     J::obj(vec![("n", J::s(n)), ("threads", J::from(th)), ("abort_from_poll", J::from(k))]),
                 ),
                 Ok(_) => {
-                    if cpu_after > 2_500 {
+                    if cpu_after > 2_500 || gave_up {
                         rep.violation(
                             format!("algo={};pool={};what=slow-abort", algo_name(a), th),
                             format!("factor({}, {}) with {} threads and abort raised after {} ms of CPU: {:.1} s of CPU (all threads) between the signal and the return; bound 2.5 s (a work item at that level takes about 0.07 s per thread)", name, algo_name(a), th, k, cpu_after as f64 / 1000.0),
@@ -419,6 +514,11 @@ pub fn run(ctx: &Ctx) -> Report {
                         );
                     }
                 }
+            }
+            if stop {
+                // the abandoned call still burns CPU in this process: later measurements would be noise
+                rep.set("pooled_runs_stopped_after_a_call_that_did_not_return", J::B(true));
+                break;
             }
         }
         rep.set("pooled_runs", J::A(pooled));
@@ -429,7 +529,7 @@ pub fn run(ctx: &Ctx) -> Report {
     }
     rep.set("subjects", J::A(per_subject));
     rep.set("max_cpu_ms_after_abort", J::from(max_cpu_after_ms));
-    rep.rule = "Sequential part: for each subject (10 selectors x 40-/64-bit/3-factor inputs, the polling selectors on 90/98/110-bit inputs, classgroup on 4 discriminants) the unaborted run is executed once with a counting predicate (N polls); then for EVERY k in [0,N] the run is repeated with a predicate answering true from its k-th call on. states = (subject,k) instants, transitions = polls executed, every run is a trace on the implementation. Oracle: no panic; Ok(list with product n, sorted, no 0/1) or Err / None; after the first true answer: relations published <= half a complete run, thread CPU time <= max(1s, 3x complete run), further polls <= N+20000 (every pending work item polls once and returns). distinct_nontrivial = distinct (subject, result) pairs. Pooled runs (2 and 4 threads, ECM / SIQS / automatic mode on inputs they do not split quickly, abort flag raised from outside after 3 s / 6 s of CPU): CPU time of all threads between the signal and the return <= 2.5 s (measured: 0.07-0.6 s).".into();
+    rep.rule = "Sequential part: for each subject (10 selectors x 40-/64-bit/3-factor inputs, the polling selectors on 90/98/110-bit inputs, classgroup on 4 discriminants) the unaborted run is executed once with a counting predicate (N polls); then for EVERY k in [0,N] the run is repeated with a predicate answering true from its k-th call on. states = (subject,k) instants, transitions = polls executed, every run is a trace on the implementation. Oracle: no panic; Ok(list with product n, sorted, no 0/1) or Err / None; after the first true answer: relations published <= half a complete run, thread CPU time <= max(1s, 3x complete run), further polls <= N+20000 (every pending work item polls once and returns). distinct_nontrivial = distinct (subject, result) pairs. Abort already true when the call starts: 128..350-bit (thorough: ..500-bit) semiprimes x {Auto,Pm1,Ecm,Qs,Mpqs,Siqs}: CPU of the whole call <= 1 s. Pooled runs (2 and 4 threads, ECM / SIQS / MPQS / automatic mode on inputs they do not split quickly, abort flag raised from outside after 3 s / 6 s of CPU): CPU time of all threads between the signal and the return <= 2.5 s (measured: 0.07-0.6 s).".into();
     rep.assumptions.push("stages that never poll (rho, P-1, ECM128, linear algebra) delay the return by their own duration; this is bounded by the CPU-time oracle only".into());
     rep.assumptions.push("thread CPU time from /proc/thread-self/schedstat".into());
     rep
